@@ -17,6 +17,26 @@ CHECKS = {
               "shapes, prime squares, close-prime products, literature strong/Lucas pseudoprimes); generated primes are checked for exact size and primality."),
         note="Trusted: CPython integers; ref/primes.py (certificates re-verified at run time, BPSW for library-generated primes). Miller-Rabin on composites is probabilistic: only >=20-round runs must say COMPOSITE. Held only on generated operands (<= 4224 bits).",
         ref="DESIGN.md §4 C14"),
+    "C16": dict(
+        technique="runtime monitor: differential-configuration oracle (same transcript under AES-NI on/off, CLMUL on/off, GMP/custom/native integers) with variant call counters",
+        text=("Identical inputs are executed under both members of every implementation pair and the transcripts (values, Python types, exception classes) "
+              "must be equal: all AES modes incl. AEADs, KW/KWP, CMAC with use_aesni on/off over keys 16/24/32, lengths around 1/8 blocks, unaligned memoryviews "
+              "and segmentations; GCM with use_clmul on/off over nonce/AAD/message/tag-length grids; ~50 Integer operations on the three classes incl. result "
+              "types and the exception class for a single violated precondition; and a tape-driven RSA/DSA/ECC/primality workload run in three processes "
+              "(GMP, PYCRYPTODOME_DISABLE_GMP=1, forced native) whose transcripts are diffed line by line.  Counters prove both variants of each pair executed."),
+        note="Trusted: nothing beyond equality of transcripts; requires a CPU with AES-NI and PCLMULQDQ (else inconclusive). Held only on generated inputs.",
+        ref="DESIGN.md §4 C16"),
+    "C18": dict(
+        technique="runtime monitor: exhaustive entropy-tape enumeration (pre-image counting) + bounds invariant at a hook + boundary tapes on consumers",
+        text=("The first-draw level of the entropy-tape tree of every sampler (Integer.random_range on all three back-ends, StrongRandom.randrange/randint/"
+              "choice, legacy getRandomRange/Integer/NBitInteger, Integer.random max/exact bits) is enumerated completely (all 256 or 65536 tapes) for range "
+              "sizes 1..256 plus 9-bit ranges and bit sizes <= 12/16: every value of the documented range must have the same number of pre-images, and the "
+              "sub-tree below sampled rejections must equal the root map (no carried state).  shuffle/sample are enumerated over all rejection-free tapes. "
+              "Consumers (ECC.generate on every curve, FIPS (EC)DSA nonces, DSA/RSA generation) run under boundary tapes: bounds, determinism, entropy "
+              "dependence, redraw after an out-of-range first draw.  Integer.random/random_range are wrapped in place during sign/decrypt/generate workloads "
+              "and every value is checked against the bounds in its arguments."),
+        note="Trusted: entropy reaches the library only via randfunc / Crypto.Random (os.urandom captured before import). Exact uniformity decided for ranges <= 600 and <= 16 bits; cryptographic sizes only via boundary tapes.",
+        ref="DESIGN.md §4 C18"),
     "C20": dict(
         technique="runtime monitor: reference-model oracle (independent GF(2^128) + Lagrange) over entropy-tape-driven split/combine executions",
         text=("Every split() runs under a recorded entropy tape; the monitor interpolates the returned shares with an "
